@@ -12,7 +12,7 @@ MONITORS = ["equals"]
 INSITU = {"k": "equals or eq or tokenisation or copy"}
 RULE = ("base well-formed sequences x {identity, copy, via-relative, shuffled insertion} x perturbation of exactly one "
         "attribute (pitch, onset order-preserving, onset order-changing, duration, velocity, channel relabel, signature "
-        "value, signature tick, none) x all 16 ignore-flag combinations, equals called in both directions; the contract "
+        "numerator, signature denominator, proportional signature (3/4 vs 6/8), signature tick, none) x all 16 ignore-flag combinations, equals called in both directions; the contract "
         "on the real equals decides every call. Non-trivial: the oracle confirms that the pair differs in exactly the "
         "perturbed attribute (or not at all for the equal families).")
 PLAN = {"quick": {"cases": 2500, "jobs": 4, "timeout": 600},
@@ -20,7 +20,7 @@ PLAN = {"quick": {"cases": 2500, "jobs": 4, "timeout": 600},
 FLOORS = {"quick": {"equals.verdict.armed": 60000, "c17.expected_unequal_calls": 10000, "c17.expected_equal_calls": 10000},
           "thorough": {"equals.verdict.armed": 1500000}}
 PERT = ["none", "pitch", "onset_keep_order", "onset_change_order", "duration", "velocity", "channel", "ts_value", "ts_tick",
-        "ks_value", "ks_tick", "add_note", "channel_move", "channel_swap"]
+        "ks_value", "ks_tick", "add_note", "channel_move", "channel_swap", "ts_proportional", "ts_denominator"]
 FLAGS = list(itertools.product([False, True], repeat=4))
 
 
@@ -102,7 +102,7 @@ def make_case(rng, i, tier):
             other["relabel"] = 5
         else:
             n[0] = 7
-    elif pert in ("ts_value", "ts_tick", "ks_value", "ks_tick"):
+    elif pert in ("ts_value", "ts_tick", "ks_value", "ks_tick", "ts_proportional", "ts_denominator"):
         kind = pert[:2]
         ev = [e for e in other["extra"] if e[0] == kind]
         if not ev:
@@ -111,6 +111,14 @@ def make_case(rng, i, tier):
             e = ev[0]
             if pert == "ts_value":
                 e[2] = e[2] % 7 + 2
+            elif pert == "ts_proportional":
+                # same bar length, another signature (3/4 <-> 6/8, 4/4 <-> 8/8 <-> 2/2): a signature is its two numbers
+                if e[2] % 2 == 0 and e[3] >= 4 and rng.random() < 0.5:
+                    e[2], e[3] = e[2] // 2, e[3] // 2
+                else:
+                    e[2], e[3] = e[2] * 2, e[3] * 2
+            elif pert == "ts_denominator":
+                e[3] = {2: 4, 4: 8, 8: 4, 16: 8}[e[3]]
             elif pert == "ts_tick":
                 e[1] += 12
             elif pert == "ks_value":
@@ -167,7 +175,8 @@ def run(case, ctx):
     fails = []
     pert = case["pert"]
     oa, ob = obs(a), obs(b)
-    relax = {"velocity": 3, "channel": 0, "ts_value": 1, "ts_tick": 1, "ks_value": 2, "ks_tick": 2}
+    relax = {"velocity": 3, "channel": 0, "ts_value": 1, "ts_tick": 1, "ks_value": 2, "ks_tick": 2, "ts_proportional": 1,
+             "ts_denominator": 1}
     for fl in FLAGS:
         r1 = a.equals(b, *fl)
         r2 = b.equals(a, *fl)
